@@ -15,6 +15,7 @@ from pandas.api.types import is_integer_dtype
 from statsmodels.tsa.seasonal import seasonal_decompose
 
 from sktime.transformations.base import _SeriesToSeriesTransformer
+from sktime.utils.datetime import _coerce_duration_to_int
 from sktime.utils.datetime import _get_duration
 from sktime.utils.datetime import _get_freq
 from sktime.utils.seasonality import autocorrelation_seasonality_test
@@ -71,12 +72,20 @@ class Deseasonalizer(_SeriesToSeriesTransformer):
             % self.sp
         )
         seasonal = np.roll(self.seasonal_, shift=shift)
+        # use each time point's own position so that time indices with
+        # gaps (e.g. forecasts for non-contiguous horizons) stay aligned
         if is_integer_dtype(y.index):
-            # use each time point's own position so that time indices with
-            # gaps (e.g. forecasts for non-contiguous horizons) stay aligned
             steps = np.asarray(y.index - y.index[0])
-            return np.asarray(seasonal)[steps % self.sp]
-        return np.resize(seasonal, y.shape[0])
+        elif len(y) > 1:
+            steps = np.asarray(
+                _coerce_duration_to_int(
+                    y.index[1:] - y.index[0], freq=_get_freq(self._y_index)
+                )
+            )
+            steps = np.hstack([[0], steps])
+        else:
+            steps = np.zeros(len(y), dtype=int)
+        return np.asarray(seasonal)[steps % self.sp]
 
     def fit(self, Z, X=None):
         """Fit to data.
